@@ -344,6 +344,30 @@ def watcher_retained(ctx):
             fl = L.prov.flows_forward(t["dest"]["local"])
             stored = [(x, st) for (x, st) in L.aggregates("TargetActorHandleSet") if any(operand_local(o) in fl for o in st["rv"]["ops"])]
             ctx.check(bool(stored), f"{lab}/kept", [site(L, x) for x, _ in stored] or [site(L, bb)], "the watcher is dropped after construction: watching stops at once")
+            # the handle set also keeps the actor's own end of the invalidation channel, unconditionally: a watcher without any file watcher (only command
+            # resources, or no existing path) holds no clone, and a channel whose last sender is gone makes the actor's file-change arm fire for ever
+            def chan_calls(o):
+                return {x[2] for x in flat_origins(o) if x[0] == "call" and x[1].startswith("async_std::channel::")}
+            def flat_origins(o):
+                out = []
+                for x in o:
+                    out.append(x)
+                    if x[0] == "field":
+                        out += flat_origins(x[2])
+                return out
+            sl = operand_local(t["args"][2]) if len(t["args"]) > 2 else None
+            own = chan_calls(origins(L, sl)) if sl is not None else set()
+            for (x, st) in stored:
+                keeps = False
+                for o in st["rv"]["ops"]:
+                    ol = operand_local(o)
+                    og = origins(L, ol) if ol is not None else []
+                    if og and chan_calls(og) & own and all(y[0] == "field" or (y[0] == "call" and (y[1].startswith("async_std::channel::") or y[1].endswith("::clone")))
+                                                            for y in flat_origins(og)):
+                        keeps = True
+                ctx.check(keeps, f"{lab}/own-sender-kept", [site(L, x)],
+                          "the handle set does not keep the actor's own invalidation sender on every path: with nothing to watch the channel closes and the file-change arm "
+                          "fires for ever (the target is re-invalidated in a loop and never reports success)", props=["C06"])
             def stored_in_registry(B, local, depth=0):
                 """insert sites (body, block) of the registry's map that receive `local`, following returns to the callers"""
                 fl2 = B.prov.flows_forward(local)
